@@ -19,6 +19,7 @@ struct State {
     bool active = false;
     uint64_t rng = 1;
     int mode = 0;            // 0 natural, 1 reverse scan, 2 random permutation, 3 forced permutation at one site
+    bool ssend = false;      // standard-mode sends complete synchronously (MPI permits it: a correct program may not rely on buffering)
     int site_tag = -1;       // for mode 3: the wildcard site (identified by its tag)
     int perm_index = 0;      // for mode 3: index of the permutation of sources
     int max_delay_us = 0;
@@ -34,7 +35,7 @@ static State S;
 inline uint64_t next() { uint64_t z = (S.rng += 0x9E3779B97F4A7C15ull); z = (z ^ (z >> 30)) * 0xBF58476D1CE4E5B9ull; z = (z ^ (z >> 27)) * 0x94D049BB133111EBull; return z ^ (z >> 31); }
 inline void reset(uint64_t seed, int mode, int site_tag, int perm_index, int max_delay_us, int gather_us) {
     int rank; PMPI_Comm_rank(MPI_COMM_WORLD, &rank);
-    S.active = true; S.rng = seed * 1000003ull + (uint64_t)rank * 7919ull + 11; S.mode = mode; S.site_tag = site_tag; S.perm_index = perm_index;
+    S.active = true; S.rng = seed * 1000003ull + (uint64_t)rank * 7919ull + 11; S.ssend = mode >= 10; mode %= 10; S.mode = mode; S.site_tag = site_tag; S.perm_index = perm_index;
     S.max_delay_us = max_delay_us; S.gather_us = gather_us; S.epoch = 0; S.trace.clear(); S.wild_choices = S.wild_multi = S.delays = 0;
 }
 inline void stop() { S.active = false; }
@@ -104,11 +105,13 @@ int MPI_Recv(void* buf, int count, MPI_Datatype dt, int source, int tag, MPI_Com
     return rc;
 }
 int MPI_Irecv(void* buf, int count, MPI_Datatype dt, int source, int tag, MPI_Comm comm, MPI_Request* req) {
+    vl::maybe_delay();      // a late receive: the matching send of the peer stays pending meanwhile
     vl::rec(2, comm, vl::S.active ? vl::world_rank_of(comm, source) : 0, tag, 0);
     return PMPI_Irecv(buf, count, dt, source, tag, comm, req);
 }
 int MPI_Isend(const void* buf, int count, MPI_Datatype dt, int dest, int tag, MPI_Comm comm, MPI_Request* req) {
     vl::maybe_delay(); vl::rec(1, comm, vl::S.active ? vl::world_rank_of(comm, dest) : 0, tag, count);
+    if (vl::S.active && vl::S.ssend) return PMPI_Issend(buf, count, dt, dest, tag, comm, req);
     return PMPI_Isend(buf, count, dt, dest, tag, comm, req);
 }
 int MPI_Issend(const void* buf, int count, MPI_Datatype dt, int dest, int tag, MPI_Comm comm, MPI_Request* req) {
@@ -117,6 +120,7 @@ int MPI_Issend(const void* buf, int count, MPI_Datatype dt, int dest, int tag, M
 }
 int MPI_Send(const void* buf, int count, MPI_Datatype dt, int dest, int tag, MPI_Comm comm) {
     vl::maybe_delay(); vl::rec(1, comm, vl::S.active ? vl::world_rank_of(comm, dest) : 0, tag, count);
+    if (vl::S.active && vl::S.ssend) return PMPI_Ssend(buf, count, dt, dest, tag, comm);
     return PMPI_Send(buf, count, dt, dest, tag, comm);
 }
 #define VL_COLL(kind, comm) do { vl::maybe_delay(); vl::rec(3, comm, -1, kind, 0); } while (0)
